@@ -65,6 +65,7 @@ func Start(input OperationInput) *Operation {
 	op := &Operation{
 		targetInt160: targetInt160,
 		input:        herp,
+		stalled:      make(chan struct{}),
 		queried:      make(map[addrString]struct{}),
 		closest:      k_nearest_nodes.New(targetInt160, herp.K),
 		unqueried:    containers.NewImmutableAddrMaybeIdsByDistance(targetInt160),
@@ -85,8 +86,14 @@ type Operation struct {
 	input        defaultsAppliedOperationInput
 	outstanding  int
 	cond         chansync.BroadcastCond
-	stalled      chansync.LevelTrigger
-	stopping     chansync.SetOnce
+	// Closed while the operation is stalled. When there is something to do again it is replaced by
+	// an open channel, so a caller that asks after handing over new nodes never sees a stall that
+	// was decided before they arrived. Guarded by mu.
+	stalled   chan struct{}
+	isStalled bool
+	// Set when run returns: the operation then stays stalled for good.
+	finished bool
+	stopping chansync.SetOnce
 	stopped      chansync.SetOnce
 }
 
@@ -120,7 +127,21 @@ func (op *Operation) Stopped() events.Done {
 }
 
 func (op *Operation) Stalled() events.Active {
-	return op.stalled.Active()
+	op.mu.Lock()
+	defer op.mu.Unlock()
+	return op.stalled
+}
+
+func (op *Operation) setStalledLocked(stalled bool) {
+	if op.finished || stalled == op.isStalled {
+		return
+	}
+	op.isStalled = stalled
+	if stalled {
+		close(op.stalled)
+	} else {
+		op.stalled = make(chan struct{})
+	}
 }
 
 func (op *Operation) addNodeLocked(n types.AddrMaybeId) (err error) {
@@ -133,6 +154,9 @@ func (op *Operation) addNodeLocked(n types.AddrMaybeId) (err error) {
 		return
 	}
 	op.unqueried = op.unqueried.Add(n)
+	// The run loop decides whether the new node is worth querying; until it has, don't claim to be
+	// stalled.
+	op.setStalledLocked(false)
 	op.cond.Broadcast()
 	return nil
 }
@@ -199,9 +223,12 @@ func (op *Operation) haveQuery() bool {
 }
 
 func (op *Operation) run() {
-	defer close(op.stalled.Signal())
 	op.mu.Lock()
 	defer op.mu.Unlock()
+	defer func() {
+		op.setStalledLocked(true)
+		op.finished = true
+	}()
 	for {
 		if op.stopping.IsSet() {
 			return
@@ -209,15 +236,13 @@ func (op *Operation) run() {
 		for op.outstanding < op.input.Alpha && op.haveQuery() {
 			op.startQuery()
 		}
-		var stalled events.Signal
 		if (!op.haveQuery() || op.input.Alpha == 0) && op.outstanding == 0 {
-			stalled = op.stalled.Signal()
+			op.setStalledLocked(true)
 		}
 		queryCondSignaled := op.cond.Signaled()
 		op.mu.Unlock()
 		verifYield(1)
 		select {
-		case stalled <- struct{}{}:
 		case <-op.stopping.Done():
 		case <-queryCondSignaled:
 		}
